@@ -283,6 +283,73 @@ def tr_combinators(cls, prefix):
     return "\n".join(out)
 
 
+def coq_res_const(e):
+    if isinstance(e, ast.Constant) and e.value is True:
+        return "(RB true)"
+    if isinstance(e, ast.Constant) and e.value is False:
+        return "(RB false)"
+    raise Refuse(f"expected a boolean constant, got {ast.unparse(e)}")
+
+
+def tr_eval(simple, compound, gsq):
+    """SimpleQuery.__call__, CompoundQuery.__call__, the `test` and `path_resolver` closures of _generate_simple_query"""
+    out = []
+    # SimpleQuery.__call__
+    f = methods(simple).get("__call__")
+    body = strip_doc(f.body) if f else []
+    ok = len(body) == 3 and ast.unparse(body[0]) == "obj_attr = getattr(point, self._point_attr)" and isinstance(body[1], ast.Try) \
+        and [ast.unparse(s) for s in body[1].body] == ["value = self._path_resolver(obj_attr)"] and len(body[1].handlers) == 1 \
+        and ast.unparse(body[1].handlers[0].type) == "Exception" and len(body[1].handlers[0].body) == 1 and isinstance(body[1].handlers[0].body[0], ast.Return) \
+        and not body[1].orelse and not body[1].finalbody and ast.unparse(body[2]) == "return self._test(value)"
+    if not ok:
+        raise Refuse("SimpleQuery.__call__: unexpected shape")
+    on_fail = coq_res_const(body[1].handlers[0].body[0].value)
+    out.append("(* SimpleQuery.__call__: the path resolver may fail (a missing key, a function in the path that raises): the answer is then a constant;\n"
+               "   otherwise whatever the test says, its exceptions included *)\n"
+               f"Definition gen_simple_call (resolved : option value) (test : value -> res) : res :=\n  match resolved with None => {on_fail} | Some value => test value end.\n")
+    # CompoundQuery.__call__
+    f = methods(compound).get("__call__")
+    body = strip_doc(f.body) if f else []
+    ok = len(body) == 2 and isinstance(body[0], ast.If) and ast.unparse(body[0].test) == "self.query2" and not body[0].orelse \
+        and [ast.unparse(s) for s in body[0].body] == ["return self.operator(self.query1(point), self.query2(point))"] \
+        and ast.unparse(body[1]) == "return self.operator(self.query1(point))"
+    if not ok:
+        raise Refuse("CompoundQuery.__call__: unexpected shape")
+    out.append("(* CompoundQuery.__call__: both operands are evaluated, then the operator is applied to their results *)\n"
+               "Definition gen_compound_call (op : boolop) (r1 : res) (r2 : option res) : res :=\n"
+               "  match r2 with Some b => apply_boolop2 op r1 b | None => apply_boolop1 op r1 end.\n")
+    # the test closure
+    inner = {n.name: n for n in gsq.body if isinstance(n, ast.FunctionDef)}
+    tf_ = inner.get("test")
+    body = strip_doc(tf_.body) if tf_ else []
+    ok = len(body) == 2 and isinstance(body[0], ast.If) and ast.unparse(body[0].test) == "not test_against_rhs" and not body[0].orelse \
+        and [ast.unparse(s) for s in body[0].body] == ["return operator(x, *args) if args else operator(x)"] and isinstance(body[1], ast.Try) \
+        and len(body[1].handlers) == 1 and ast.unparse(body[1].handlers[0].type) == "Exception" and len(body[1].handlers[0].body) == 1 \
+        and isinstance(body[1].handlers[0].body[0], ast.Return) and not body[1].orelse and not body[1].finalbody
+    if not ok:
+        raise Refuse("_generate_simple_query.test: unexpected shape")
+    tb = body[1].body
+    if ast.unparse(tb[-1]) != "return operator(x, rhs)":
+        raise Refuse("_generate_simple_query.test: the comparison is not `return operator(x, rhs)`")
+    for s in tb[:-1]:
+        # only the expression of a zoned time in UTC may precede the comparison (F34)
+        if not (isinstance(s, ast.If) and "self._point_attr == '_time'" in ast.unparse(s.test) and [ast.unparse(b) for b in s.body] == ["x = x.astimezone(timezone.utc)"] and not s.orelse):
+            raise Refuse(f"_generate_simple_query.test: unexpected statement `{ast.unparse(s)[:60]}`")
+    on_exc = coq_res_const(body[1].handlers[0].body[0].value)
+    out.append("(* the test closure: a test that is not a comparison calls the function (its exceptions propagate); a comparison that raises\n"
+               "   (None < 3, str < float) is a constant *)\n"
+               f"Definition gen_test (against_rhs : bool) (plain : res) (compared : option bool) : res :=\n"
+               f"  if negb against_rhs then plain else match compared with Some b => RB b | None => {on_exc} end.\n")
+    pr = inner.get("path_resolver")
+    src = [ast.unparse(s) for s in strip_doc(pr.body)] if pr else []
+    want = ["try:\n    for part in self._path:\n        if isinstance(part, str):\n            value = value[part]\n        else:\n            value = part(value)\n    return value\nexcept Exception as e:\n    raise e"]
+    if src != want:
+        raise Refuse("_generate_simple_query.path_resolver: not the key / function walk over self._path")
+    out.append("(* the path resolver walks self._path: a string part is a key lookup, any other part is called; checked structurally *)\n"
+               "Definition path_walk_is_key_or_call : bool := true.\n")
+    return "\n".join(out)
+
+
 HEADER = """(* GENERATED on every run by harness/py2coq_query.py from tinyflux/queries.py (every place where a query object gets its
    `_hash` key, its test operator, its ==) - do not edit.  proofs/QueryGenP.v proves the model's hash trees and qeq equal to these. *)
 From Coq Require Import List NArith Bool.
@@ -317,7 +384,8 @@ def main():
                 if f is not None and not all(isinstance(s, ast.Raise) for s in strip_doc(f.body)):
                     raise Refuse(f"{c}.{m} is overridden by something other than a raise")
         text = HEADER + "Definition refused : bool := false.\n\n" + tr_builder(classes["BaseQuery"], classes["TagQuery"], classes["FieldQuery"], gsq) + "\n" \
-            + tr_combinators(classes["SimpleQuery"], "s") + "\n" + tr_combinators(classes["CompoundQuery"], "c")
+            + tr_combinators(classes["SimpleQuery"], "s") + "\n" + tr_combinators(classes["CompoundQuery"], "c") + "\n" \
+            + tr_eval(classes["SimpleQuery"], classes["CompoundQuery"], gsq)
     except Refuse as r:
         refused = str(r)
         snap = open(FALLBACK_FILE).read().replace("Definition refused : bool := false.", "Definition refused : bool := true.")
